@@ -195,7 +195,8 @@ def strategy(tier):
     solve = st.builds(lambda t, r, x: {"op": "solve", "trans": t, "rhs": r, "x0": x},
                       st.sampled_from(["N", "N", "T", "H"]), rhs, st.sampled_from(["none"] * 5 + ["rand", "exact", "zero"]))
     # inplace: the new values are written into the matrix object handed over before (same object, same pattern/dtype)
-    update = st.builds(U, st.sampled_from(["new", "new", "same", "scaled", "special"]), st.sampled_from([False, False, True]))
+    update = st.builds(U, st.sampled_from(["new", "new", "same", "scaled", "special", "dtype_switch", "dtype_switch"]),
+                       st.sampled_from([False, False, True]))
     op = st.one_of(solve, solve, solve, solve, solve, solve, update)
 
     @st.composite
@@ -406,6 +407,13 @@ def check_case(case):
             cand = make_matrix("herm_pd" if case["cplx"] else "spd", n, rng, case["cplx"], 100.0)
             if (not is_sym or (cand == cand.T).all()) and (not is_herm or (cand == cand.conj().T).all()):
                 labels.append("update:more_special")
+                return cand
+        if how == "dtype_switch" and storage == "dense" and mclass in ("general", "pattern") and n >= 2:
+            # a matrix of the same class with the other dtype (real <-> complex); general matrices are neither symmetric
+            # nor Hermitian before and after, so the flags of the wrapper's life stay true
+            cand = gen_matrix(mclass, n, not np.iscomplexobj(Aprev), case["pattern"], rng)
+            if not (cand == cand.T).all() and not (cand == cand.conj().T).all() and not is_sym and not is_herm:
+                labels.append("update:dtype_switched")
                 return cand
         return gen_matrix(mclass, n, case["cplx"], case["pattern"], rng)
 
